@@ -76,7 +76,7 @@ CLASSES = {
         _a('coefficients', 'R:CALIBRATION-COEFFICIENT+'), _a('measurements', 'R:CALIBRATION-MEASUREMENT+'),
         _a('parameters', 'R:PARAMETER+'), _a('method', 'I')])),
     'group': ('GROUP', 5, dict([
-        _a('description', 'T'), _a('object_type', 'I'), _a('object_list', 'R*+'), _a('group_list', 'R:GROUP+')])),
+        _a('description', 'T'), _a('object_list', 'R*+'), _a('group_list', 'R:GROUP+')])),
     'message': ('MESSAGE', 6, dict([
         _a('message_type', 'I', attr='_type'), _a('time', 'DTN'), _a('borehole_drift', 'N'), _a('vertical_depth', 'N'),
         _a('radial_drift', 'N'), _a('angular_drift', 'N'), _a('text', 'T+')])),
